@@ -81,7 +81,11 @@ pub fn run(tier: Tier, seed: u64) -> i32 {
     ];
     // Q & R and Q * R: a zero left operand must not hide a Z/X right operand (evaluation is strict)
     let wdecls: Vec<Option<Expr>> = vec![None, Some(un(UnOp::Not, rr())), Some(bin(BinOp::Eq, q(), rr())), Some(bin(BinOp::And, q(), rr())), Some(bin(BinOp::Mul, q(), bin(BinOp::Shl, rr(), q())))];
-    let headers: Vec<Vec<&str>> = vec![vec!["A", "Q", "V", "W"], vec!["A", "V"], vec!["A", "Q"], vec!["A", "W", "Q"]];
+    // the last header has a column V_out, which belongs to the real output of that name and says
+    // nothing about the virtual signal V
+    let headers: Vec<Vec<&str>> = vec![vec!["A", "Q", "V", "W"], vec!["A", "V"], vec!["A", "Q"], vec!["A", "W", "Q"], vec!["A", "V_out", "Q"]];
+    let mut sigs_vout = sigs.clone();
+    sigs_vout.push(Sig::out("V_out", 4));
     let vals: Vec<V> = tier.pick(vec![V::Num(0), V::Num(1), V::Z, V::X], vec![V::Num(0), V::Num(1), V::Num(2), V::Z, V::X]);
     let mut menu = vec![];
     for &a in &vals {
@@ -89,6 +93,7 @@ pub fn run(tier: Tier, seed: u64) -> i32 {
             menu.push(MenuItem::ans(vec![("Q".into(), a), ("R".into(), b)]));
         }
     }
+    let menu_vout: Vec<MenuItem> = vals.iter().flat_map(|&a| vals.iter().map(move |&b| MenuItem::ans(vec![("Q".into(), a), ("R".into(), b), ("V_out".into(), V::Num(5))]))).collect();
     let l = |n: i64| Entry::Lit(n, Radix::Dec);
     let mut cases = vec![];
     let mut nprog = 0u64;
@@ -109,6 +114,8 @@ pub fn run(tier: Tier, seed: u64) -> i32 {
                                 ("V", 0) => Entry::X,
                                 ("V", 1) => Entry::Paren(bin(BinOp::Sub, lit(0), lit(2))),
                                 ("V", _) => Entry::Paren(name("a")),
+                                ("V_out", 1) => l(5),
+                                ("V_out", 2) => l(4),
                                 ("W", 1) => l(0),
                                 ("W", 2) => l(1),
                                 _ => Entry::X,
@@ -123,7 +130,8 @@ pub fn run(tier: Tier, seed: u64) -> i32 {
                         if let Some(e) = wd {
                             decls.push(Stmt::Declare("W".into(), e.clone()));
                         }
-                        let mut rows = vec![mk_row(0), mk_row(1), mk_row(2), clock_row];
+                        // row 2 twice: a checked row whose inputs all repeat the previous row's
+                        let mut rows = vec![mk_row(0), mk_row(1), mk_row(2), mk_row(2), clock_row];
                         let mut body = vec![Stmt::Let("a".into(), lit(2))];
                         // shadowing variables around the rows
                         match shadow {
@@ -164,7 +172,8 @@ pub fn run(tier: Tier, seed: u64) -> i32 {
                             _ => body.extend(rows),
                         }
                         let prog = Program { header: header.iter().map(|s| s.to_string()).collect(), body };
-                        if bind_judgement(&prog, &sigs).is_err() {
+                        let (sigs, menu) = if header.contains(&"V_out") { (&sigs_vout, &menu_vout) } else { (&sigs, &menu) };
+                        if bind_judgement(&prog, sigs).is_err() {
                             continue;
                         }
                         nprog += 1;
@@ -172,7 +181,7 @@ pub fn run(tier: Tier, seed: u64) -> i32 {
                             if !ov && (vi + wi + placement + shadow + hi) % 5 != 0 {
                                 continue;
                             }
-                            let mut c = Case::new(&format!("V#{vi} W#{wi} placement {placement} shadow {shadow} header {header:?} {}", if ov { "Ov" } else { "Fw" }), prog.clone(), sigs.clone(), ov, menu.clone(), menu.clone(), 16);
+                            let mut c = Case::new(&format!("V#{vi} W#{wi} placement {placement} shadow {shadow} header {header:?} {}", if ov { "Ov" } else { "Fw" }), prog.clone(), sigs.clone(), ov, menu.clone(), menu.clone(), 18);
                             c.continue_after_call_errors = true;
                             cases.push(c);
                         }
@@ -219,7 +228,7 @@ pub fn run(tier: Tier, seed: u64) -> i32 {
         id: "C14",
         tier,
         seed,
-        rule: "explicit-state BFS (stateright): every declaration set (V in {none, Q+1, Q*2+R, 7, (Q<<60)} x W in {none, !R, Q=R, Q&R, Q*(R<<Q)}) x 5 placements (before, between, after the rows, inside a loop body, split) x 5 shadowing variants (none, let Q, rows inside loop(Q,2), let V, let R inside a loop) x 4 headers (virtual columns present / absent / reordered) that bind; four source rows incl. a clock row; every output-reading call answers (Q,R) in {0,1,Z,X}^2 (quick) / {0,1,2,Z,X}^2 (thorough) so every pair of consecutive answers is a transition; the caller carries on after an error item; distinct_nontrivial = unique states".into(),
+        rule: "explicit-state BFS (stateright): every declaration set (V in {none, Q+1, Q*2+R, 7, (Q<<60)} x W in {none, !R, Q=R, Q&R, Q*(R<<Q)}) x 5 placements (before, between, after the rows, inside a loop body, split) x 5 shadowing variants (none, let Q, rows inside loop(Q,2), let V, let R inside a loop) x 5 headers (virtual columns present / absent / reordered / a V_out column of a real output) that bind; five source rows incl. a repeated row and a clock row; every output-reading call answers (Q,R) in {0,1,Z,X}^2 (quick) / {0,1,2,Z,X}^2 (thorough) so every pair of consecutive answers is a transition; the caller carries on after an error item; distinct_nontrivial = unique states".into(),
         assumptions: vec![
             "reference interpreter evaluates each declaration over the answer of the same call with no variables visible; virtual entries are matched by name (their mutual order is C15's)".into(),
         ],
